@@ -6,8 +6,10 @@ props = [json.loads(l) for l in open(os.path.join(V, "properties.jsonl"))]
 
 CHECKS = {}
 MD = os.path.join(V, "checks", "manifest")
+# only properties the coordinator has accepted (reviewed, committed, passing) are claimed
+ENABLED = open(os.path.join(MD, "ENABLED")).read().split()
 for f in sorted(os.listdir(MD)):
-    if f.endswith(".json"):
+    if f.endswith(".json") and f[:-5] in ENABLED:
         CHECKS[f[:-5]] = json.load(open(os.path.join(MD, f)))
 PENDING = "not yet built in this round (claimed in DESIGN.md; check under construction)"
 
